@@ -55,6 +55,24 @@ CONFIGS = {
                    Users='{"u1"}', EncIds='{"e1"}'),
         thorough=dict(Script="<- Script_HA_hyb", Hints="{FALSE, TRUE}", MaxAttrs=4, MaxUid=4, Pols="<- MCPolsFull",
                       Users='{"u1", "u2"}', EncIds='{"e1", "e2"}')),
+    "StaticHH": dict(
+        ops=["KeyGen", "Encaps"],
+        quick=dict(Script="<- Script_2x2", Kind="<- MCKindHH", Hints="{FALSE, TRUE}", MaxAttrs=4, MaxUid=4, Pols="<- MCPolsFull",
+                   Users='{"u1"}', EncIds='{"e1"}'),
+        thorough=dict(Script="<- Script_2x2", Kind="<- MCKindHH", Hints="{FALSE, TRUE}", MaxAttrs=4, MaxUid=4, Pols="<- MCPolsFull",
+                      Users='{"u1", "u2"}', EncIds='{"e1", "e2"}')),
+    "StaticAA": dict(
+        ops=["KeyGen", "Encaps"],
+        quick=dict(Script="<- Script_2x2", Kind="<- MCKindAA", Hints="{FALSE, TRUE}", MaxAttrs=4, MaxUid=4, Pols="<- MCPolsFull",
+                   Users='{"u1"}', EncIds='{"e1"}'),
+        thorough=dict(Script="<- Script_2x2", Kind="<- MCKindAA", Hints="{FALSE, TRUE}", MaxAttrs=4, MaxUid=4, Pols="<- MCPolsFull",
+                      Users='{"u1", "u2"}', EncIds='{"e1", "e2"}')),
+    "Static3": dict(
+        ops=["KeyGen", "Encaps"],
+        quick=dict(Script="<- Script_3dims", Dims='{"D1", "D2", "D3"}', Hints="{FALSE, TRUE}", MaxAttrs=4, MaxUid=4, MaxSid=20,
+                   Pols="<- MCPolsMid", Users='{"u1"}', EncIds='{"e1"}'),
+        thorough=dict(Script="<- Script_3dims", Dims='{"D1", "D2", "D3"}', Hints="{FALSE, TRUE}", MaxAttrs=4, MaxUid=4, MaxSid=20,
+                      Pols="<- MCPolsFull", Users='{"u1"}', EncIds='{"e1", "e2"}')),
     "Ids": dict(
         ops=["KeyGen", "Refresh", "Clone", "RoundTrip", "Rekey", "Save", "Restore", "DropUsk"],
         ops_quick=["KeyGen", "Refresh", "RoundTrip", "Save", "Restore", "Rekey"],
@@ -64,7 +82,8 @@ CONFIGS = {
 }
 
 FOR_PROP = {
-    "C01": ["Static"], "C02": ["Static"], "C11": ["Static", "Disable"],
+    "C01": ["Static", "StaticHH", "StaticAA", "Static3"], "C02": ["Static", "StaticHH", "StaticAA", "Static3"],
+    "C11": ["Static", "StaticHH", "Disable"],
     "C03": ["Edits", "Alias"], "C04": ["Rotation"], "C05": ["Revocation"], "C06": ["Disable"],
     "C09": ["Edits", "Revocation"], "C10": ["Revocation", "Edits"], "C13": ["Ids"], "C16": ["Rotation"],
     "C17": ["Ids"], "C18": ["Recaps"],
